@@ -223,6 +223,18 @@ class Stats:
         self.diff["notes"] = (self.diff["notes"] + d.get("diff", {}).get("notes", []))[:6]
 
 
+def _die_with_parent():
+    """a forked explorer must not outlive the process that collects its result (watchdog exits, external kills)"""
+    try:
+        import ctypes
+        import signal
+        ctypes.CDLL("libc.so.6", use_errno=True).prctl(1, signal.SIGKILL)  # PR_SET_PDEATHSIG
+        if os.getppid() == 1:
+            os._exit(4)
+    except Exception:
+        pass
+
+
 class Executor:
     def __init__(self, prog, mode="int", unwind=8, timeout_ms=60000, maxlen=1 << 31, cfg=None):
         self.p = prog
@@ -850,6 +862,7 @@ class Executor:
             return (pid, path)
         # ---- child
         code = 0
+        _die_with_parent()
         self._child_out = path
         try:
             self.stats = Stats()
